@@ -21,6 +21,7 @@ import (
 	"encoding/hex"
 	"fmt"
 	"math/big"
+	"math/rand"
 	"reflect"
 	"strings"
 	"testing"
@@ -32,7 +33,6 @@ import (
 	govtypes "github.com/cosmos/cosmos-sdk/x/gov/types"
 	"github.com/ethereum/go-ethereum/common"
 
-	"github.com/functionx/fx-core/v8/testutil/helpers"
 	fxtypes "github.com/functionx/fx-core/v8/types"
 	crosschainkeeper "github.com/functionx/fx-core/v8/x/crosschain/keeper"
 	crosschaintypes "github.com/functionx/fx-core/v8/x/crosschain/types"
@@ -69,7 +69,7 @@ func (h *hWorld) setup(t *testing.T) {
 		k.SetProposalOracle(s.Ctx, &crosschaintypes.ProposalOracle{Oracles: oracles})
 		for i, oracle := range accs {
 			bridger := s.AddTestAddress(1, sdk.NewCoin(fxtypes.DefaultDenom, sdkmath.NewInt(1000).MulRaw(1e18)))[0]
-			ext := helpers.GenExternalAddr(chain)
+			ext := crosschaintypes.ExternalAddrToStr(chain, rndAddr(h.e.rng).Bytes())
 			_, err := crosschainkeeper.NewMsgServerImpl(k).BondedOracle(s.Ctx, &crosschaintypes.MsgBondedOracle{OracleAddress: oracle.String(), BridgerAddress: bridger.String(),
 				ExternalAddress: ext, ValidatorAddress: s.ValAddr[0].String(),
 				DelegateAmount: crosschaintypes.NewDelegateAmount(sdkmath.NewInt(10000).MulRaw(1e18)), ChainName: chain})
@@ -168,7 +168,8 @@ func (h *hWorld) rebind(m sdk.Msg, chain string, c int) {
 	}
 	// coins a user can pay: base denominations of the groups
 	for _, name := range []string{"Amount", "BridgeFee", "AddBridgeFee", "Coin"} {
-		if f := v.FieldByName(name); f.IsValid() && f.Type() == coinType {
+		// (a coin in the staking denomination — oracle stake — stays what the template says)
+		if f := v.FieldByName(name); f.IsValid() && f.Type() == coinType && f.Interface().(sdk.Coin).Denom != fxtypes.DefaultDenom {
 			f.Set(reflect.ValueOf(sdk.NewCoin(grp.Base, sdkmath.NewInt(int64(1+rng.Intn(20))))))
 		}
 	}
@@ -188,6 +189,179 @@ func (h *hWorld) rebind(m sdk.Msg, chain string, c int) {
 
 var hostileStrings = []string{"", "0x", "nope", "00", "zz", "abcd", strings.Repeat("ab", 40), "0x0000000000000000000000000000000000000000", "\xff\xfe", "eth", "transfer/channel-0",
 	hex.EncodeToString([]byte("px/transfer/channel-0")), hex.EncodeToString([]byte("chain/bsc")), hex.EncodeToString([]byte("module/evm"))}
+
+
+func hostileAddrStrings(rng *rand.Rand) []string {
+	return []string{sdk.AccAddress(rndAddr(rng).Bytes()).String(), rndAddr(rng).Hex(), crosschaintypes.ExternalAddrToStr("tron", rndAddr(rng).Bytes()),
+		sdk.ValAddress(rndAddr(rng).Bytes()).String(), common.Address{}.Hex(), "bsc", "polygon", "tron"}
+}
+
+func allBigHostile() []sdkmath.Int {
+	sub1 := func(x *big.Int) sdkmath.Int { return sdkmath.NewIntFromBigInt(new(big.Int).Sub(x, big.NewInt(1))) }
+	return []sdkmath.Int{sdkmath.ZeroInt(), sdkmath.OneInt(), sub1(pow2(63)), sdkmath.NewIntFromBigInt(pow2(63)), sub1(pow2(64)), sdkmath.NewIntFromBigInt(pow2(64)),
+		sdkmath.NewIntFromBigInt(pow2(255)), sub1(pow2(256)), sdkmath.NewInt(-1)}
+}
+
+// msgTwist is one named hostile change of a message, addressed by field index so that it applies to any instance of the type
+type msgTwist struct {
+	label string
+	apply func(v reflect.Value)
+}
+
+// enumFieldTwists: the boundary classes applied on EVERY run to every field of a message type (one at a time), plus the
+// pair classes for two amounts that a handler may add up
+func (h *hWorld) enumFieldTwists(t reflect.Type, prefix string, depth int) []msgTwist {
+	var out []msgTwist
+	var amountFields []int
+	for i := 0; i < t.NumField(); i++ {
+		i := i
+		f := t.Field(i)
+		if strings.HasPrefix(f.Name, "XXX_") || !f.IsExported() {
+			continue
+		}
+		name := prefix + f.Name
+		set := func(label string, fn func(fv reflect.Value)) {
+			out = append(out, msgTwist{name + label, func(v reflect.Value) { fn(v.Field(i)) }})
+		}
+		switch {
+		case f.Type == intType:
+			amountFields = append(amountFields, i)
+			for _, x := range allBigHostile() {
+				x := x
+				set(fmt.Sprintf("=%dbits", x.BigInt().BitLen()*x.Sign()), func(fv reflect.Value) { fv.Set(reflect.ValueOf(x)) })
+			}
+		case f.Type == coinType:
+			amountFields = append(amountFields, i)
+			for _, x := range allBigHostile() {
+				x := x
+				set(fmt.Sprintf(".Amount=%dbits", x.BigInt().BitLen()*x.Sign()), func(fv reflect.Value) {
+					c := fv.Interface().(sdk.Coin)
+					c.Amount = x
+					fv.Set(reflect.ValueOf(c))
+				})
+			}
+			for _, d := range []string{fxtypes.DefaultDenom, "nope", "eth0x1", "ibc/ABCDEF"} {
+				d := d
+				set(".Denom="+d, func(fv reflect.Value) {
+					c := fv.Interface().(sdk.Coin)
+					c.Denom = d
+					fv.Set(reflect.ValueOf(c))
+				})
+			}
+			set("=empty coin", func(fv reflect.Value) { fv.Set(reflect.ValueOf(sdk.Coin{})) })
+		case f.Type.Kind() == reflect.String:
+			for _, str := range hostileStrings {
+				str := str
+				set(fmt.Sprintf("=%q", str[:min(len(str), 12)]), func(fv reflect.Value) { fv.SetString(str) })
+			}
+			for k := 0; k < 8; k++ {
+				k := k
+				set(fmt.Sprintf("=address kind %d", k), func(fv reflect.Value) { fv.SetString(hostileAddrStrings(h.e.rng)[k]) })
+			}
+		case f.Type.Kind() == reflect.Uint64 || f.Type.Kind() == reflect.Uint32:
+			for _, x := range []uint64{0, 1, 2, 1<<31 - 1, 1<<32 - 1, 1<<63 - 1, 1 << 63, 1<<64 - 1} {
+				x := x
+				set(fmt.Sprintf("=%d", x), func(fv reflect.Value) {
+					if fv.Kind() == reflect.Uint32 {
+						fv.SetUint(x & (1<<32 - 1))
+					} else {
+						fv.SetUint(x)
+					}
+				})
+			}
+			set("+1", func(fv reflect.Value) { fv.SetUint(fv.Uint() + 1) })
+			set("+2", func(fv reflect.Value) { fv.SetUint(fv.Uint() + 2) })
+		case f.Type.Kind() == reflect.Bool:
+			set(" flipped", func(fv reflect.Value) { fv.SetBool(!fv.Bool()) })
+		case f.Type.Kind() == reflect.Slice && f.Type.Elem().Kind() != reflect.Uint8:
+			set(" emptied", func(fv reflect.Value) { fv.Set(reflect.MakeSlice(fv.Type(), 0, 0)) })
+			set(" first element duplicated", func(fv reflect.Value) {
+				if fv.Len() > 0 {
+					fv.Set(reflect.Append(fv, fv.Index(0)))
+				}
+			})
+			set(" one shorter", func(fv reflect.Value) {
+				if fv.Len() > 0 {
+					fv.Set(fv.Slice(0, fv.Len()-1))
+				}
+			})
+			switch {
+			case f.Type.Elem() == intType:
+				for _, x := range allBigHostile() {
+					x := x
+					set(fmt.Sprintf("[0]=%dbits", x.BigInt().BitLen()*x.Sign()), func(fv reflect.Value) {
+						if fv.Len() > 0 {
+							fv.Index(0).Set(reflect.ValueOf(x))
+						}
+					})
+					set(fmt.Sprintf("[*]=%dbits", x.BigInt().BitLen()*x.Sign()), func(fv reflect.Value) {
+						for k := 0; k < fv.Len(); k++ {
+							fv.Index(k).Set(reflect.ValueOf(x))
+						}
+					})
+				}
+			case f.Type.Elem() == coinType:
+				for _, x := range allBigHostile() {
+					x := x
+					set(fmt.Sprintf("[*].Amount=%dbits", x.BigInt().BitLen()*x.Sign()), func(fv reflect.Value) {
+						for k := 0; k < fv.Len(); k++ {
+							c := fv.Index(k).Interface().(sdk.Coin)
+							c.Amount = x
+							fv.Index(k).Set(reflect.ValueOf(c))
+						}
+					})
+				}
+			case f.Type.Elem().Kind() == reflect.String:
+				for _, str := range []string{"", "nope", "0x", common.Address{}.Hex()} {
+					str := str
+					set(fmt.Sprintf("[0]=%q", str[:min(len(str), 12)]), func(fv reflect.Value) {
+						if fv.Len() > 0 {
+							fv.Index(0).SetString(str)
+						}
+					})
+				}
+			case f.Type.Elem().Kind() == reflect.Struct && depth > 0:
+				for _, tw := range h.enumFieldTwists(f.Type.Elem(), name+"[*].", depth-1) {
+					tw := tw
+					out = append(out, msgTwist{tw.label, func(v reflect.Value) {
+						fv := v.Field(i)
+						for k := 0; k < fv.Len(); k++ {
+							tw.apply(fv.Index(k))
+						}
+					}})
+				}
+			}
+		case f.Type.Kind() == reflect.Struct && depth > 0:
+			for _, tw := range h.enumFieldTwists(f.Type, name+".", depth-1) {
+				tw := tw
+				out = append(out, msgTwist{tw.label, func(v reflect.Value) { tw.apply(v.Field(i)) }})
+			}
+		}
+	}
+	// two amounts that a handler may add up: both at / around the top of the 256-bit range
+	setAmt := func(fv reflect.Value, x sdkmath.Int) {
+		if fv.Type() == intType {
+			fv.Set(reflect.ValueOf(x))
+		} else {
+			c := fv.Interface().(sdk.Coin)
+			c.Amount = x
+			fv.Set(reflect.ValueOf(c))
+		}
+	}
+	top := sdkmath.NewIntFromBigInt(new(big.Int).Sub(pow2(256), big.NewInt(1)))
+	half := sdkmath.NewIntFromBigInt(pow2(255))
+	for a := 0; a < len(amountFields); a++ {
+		for b := a + 1; b < len(amountFields); b++ {
+			ia, ib := amountFields[a], amountFields[b]
+			for _, pr := range [][2]sdkmath.Int{{top, top}, {half, half}, {top, sdkmath.OneInt()}, {sdkmath.OneInt(), top}} {
+				pr := pr
+				label := fmt.Sprintf("%s%s=%dbits & %s=%dbits", prefix, t.Field(ia).Name, pr[0].BigInt().BitLen(), t.Field(ib).Name, pr[1].BigInt().BitLen())
+				out = append(out, msgTwist{label, func(v reflect.Value) { setAmt(v.Field(ia), pr[0]); setAmt(v.Field(ib), pr[1]) }})
+			}
+		}
+	}
+	return out
+}
 
 // twist changes one (possibly nested) field by type
 func (h *hWorld) twistMsg(m sdk.Msg) string {
@@ -228,8 +402,8 @@ func (h *hWorld) twistMsg(m sdk.Msg) string {
 	case f.Kind() == reflect.String:
 		var pool []string
 		pool = append(pool, hostileStrings...)
-		pool = append(pool, helpers.GenAccAddress().String(), helpers.GenHexAddress().String(), helpers.GenExternalAddr("eth"), helpers.GenExternalAddr("tron"),
-			sdk.ValAddress(helpers.GenAccAddress()).String(), h.w.Bad.Hex(), common.Address{}.Hex(), "bsc", "polygon", "tron")
+		pool = append(pool, hostileAddrStrings(h.e.rng)...)
+		pool = append(pool, h.w.Bad.Hex())
 		s := hx.Pick(rng, pool)
 		f.SetString(s)
 		return fmt.Sprintf("%s=%q", name, s[:min(len(s), 14)])
@@ -315,10 +489,35 @@ func (e *env) handlerSweep(t *testing.T) {
 		}
 		tpls = append(tpls, tp)
 	}
-	n := hx.N(2500, 40000)
+	type hjob struct {
+		tpl   sdk.Msg
+		tw    *msgTwist
+		inner bool // the twist addresses the claim wrapped in a MsgClaim
+	}
+	var jobs []hjob
+	for _, tp := range tpls {
+		for _, tw := range h.enumFieldTwists(reflect.TypeOf(tp).Elem(), "", 2) {
+			tw := tw
+			jobs = append(jobs, hjob{tp, &tw, false})
+		}
+		if mc, ok := tp.(*crosschaintypes.MsgClaim); ok && mc.Claim != nil {
+			var claim crosschaintypes.ExternalClaim
+			if err := app.InterfaceRegistry().UnpackAny(mc.Claim, &claim); err == nil {
+				for _, tw := range h.enumFieldTwists(reflect.TypeOf(claim).Elem(), "claim.", 2) {
+					tw := tw
+					jobs = append(jobs, hjob{tp, &tw, true})
+				}
+			}
+		}
+	}
+	e.out.Stats.Extra["handler_enumerated_boundary_jobs"] = len(jobs)
+	for i := 0; i < hx.N(800, 40000); i++ {
+		jobs = append(jobs, hjob{tpls[e.rng.Intn(len(tpls))], nil, false})
+	}
+	e.rng.Shuffle(len(jobs), func(i, j int) { jobs[i], jobs[j] = jobs[j], jobs[i] })
 	reached := map[string]int{}
-	for it := 0; it < n; it++ {
-		tpl := tpls[e.rng.Intn(len(tpls))]
+	for _, jb := range jobs {
+		tpl := jb.tpl
 		url := sdk.MsgTypeURL(tpl)
 		tw, err := app.AppCodec().Marshal(tpl)
 		if err != nil {
@@ -332,18 +531,36 @@ func (e *env) handlerSweep(t *testing.T) {
 		c := e.rng.Intn(len(bridgex.Chains))
 		chain := bridgex.Chains[c]
 		h.rebind(m, chain, c)
-		nt := hx.Pick(e.rng, []int{0, 0, 1, 1, 1, 2, 3})
+		nt := 1
 		var class []string
-		for k := 0; k < nt; k++ {
-			class = append(class, h.twistMsg(m))
-			if mc, ok := m.(*crosschaintypes.MsgClaim); ok && mc.Claim != nil && e.rng.Intn(2) == 0 {
-				// twist the wrapped claim
+		if jb.tw != nil {
+			e.out.Count("handler-enumerated-boundary")
+			class = append(class, jb.tw.label)
+			if jb.inner {
+				mc := m.(*crosschaintypes.MsgClaim)
 				var claim crosschaintypes.ExternalClaim
 				if err := app.InterfaceRegistry().UnpackAny(mc.Claim, &claim); err == nil {
-					if inner, ok := claim.(sdk.Msg); ok {
-						class = append(class, "claim."+h.twistMsg(inner))
-						if any, err := codectypes.NewAnyWithValue(inner); err == nil {
-							mc.Claim = any
+					jb.tw.apply(reflect.ValueOf(claim).Elem())
+					if any, err := codectypes.NewAnyWithValue(claim); err == nil {
+						mc.Claim = any
+					}
+				}
+			} else {
+				jb.tw.apply(reflect.ValueOf(m).Elem())
+			}
+		} else {
+			nt = hx.Pick(e.rng, []int{0, 0, 1, 1, 2, 3})
+			for k := 0; k < nt; k++ {
+				class = append(class, h.twistMsg(m))
+				if mc, ok := m.(*crosschaintypes.MsgClaim); ok && mc.Claim != nil && e.rng.Intn(2) == 0 {
+					// twist the wrapped claim
+					var claim crosschaintypes.ExternalClaim
+					if err := app.InterfaceRegistry().UnpackAny(mc.Claim, &claim); err == nil {
+						if inner, ok := claim.(sdk.Msg); ok {
+							class = append(class, "claim."+h.twistMsg(inner))
+							if any, err := codectypes.NewAnyWithValue(inner); err == nil {
+								mc.Claim = any
+							}
 						}
 					}
 				}
